@@ -296,8 +296,15 @@ func runServerRT(t *testing.T, seed int64, log *traceLog) {
 							bad(fmt.Sprintf("Binding success of %s reports the mapped address of %v", c, o["mapped"]), "C19", "C04")
 						}
 						obs = append(obs, map[string]any{"k": "resp", "to": c, "m": o["m"], "cls": o["cls"], "code": toInt(o["code"]), "life": life})
-					case <-time.After(3 * time.Second):
-						bad(fmt.Sprintf("%s: no answer to %v within 3 s: the server hangs", c, a["a"]), "C09", "C18")
+					case <-time.After(10 * time.Second):
+						if w.realClients[c] != nil {
+							// a kernel socket may lose a datagram: inconclusive, this history ends here (the hang oracle is
+							// the in-memory executions' and the hammer's)
+							cl.add(map[string]any{"e": "Note", "what": "no answer over a kernel UDP socket: history ends"})
+
+							return
+						}
+						bad(fmt.Sprintf("%s: no answer to %v within 10 s: the server hangs", c, a["a"]), "C09", "C18")
 
 						return
 					}
@@ -316,8 +323,9 @@ func runServerRT(t *testing.T, seed int64, log *traceLog) {
 						due = live && perms[fmt.Sprint(peer[0])]
 					}
 					if due {
-						wait = 2 * time.Second
+						wait = 5 * time.Second
 					}
+					lost := false
 					select {
 					case o := <-payCh:
 						m := map[string]any{}
@@ -338,6 +346,12 @@ func runServerRT(t *testing.T, seed int64, log *traceLog) {
 						}
 						obs = append(obs, m)
 					case <-time.After(wait):
+						lost = due && w.realClients[c] != nil
+					}
+					if lost { // (kernel sockets may lose a datagram: inconclusive, this history ends here)
+						cl.add(map[string]any{"e": "Note", "what": "a due datagram did not arrive over a kernel UDP socket: history ends"})
+
+						return
 					}
 				}
 				cl.add(map[string]any{"e": "Op", "id": i, "a": a, "obs": obs})
@@ -438,7 +452,7 @@ func hammer(w *World, seed int64) string {
 			n, rest := 0, []byte{}
 			buf := make([]byte, 65536)
 			for n < p.want {
-				_ = p.st.SetReadDeadline(time.Now().Add(5 * time.Second))
+				_ = p.st.SetReadDeadline(time.Now().Add(20 * time.Second))
 				k, err := p.st.Read(buf)
 				if err != nil {
 					break
